@@ -16,6 +16,9 @@ original chunk or something another node served from its own state.
 RESTRICTIONS under which the theorems below are proved (all explicit in the statements; the full
 statements they restrict are quoted in the comments, names carry `_partial`):
 
+(R1 is lifted in `Props/C01ClusterBatch.lean` — arbitrary batches — and the first half of R4 in
+`Props/C01ClusterCrash.lean` — any number of `kill` / `restart` steps; the two liftings are separate.)
+
 R1. changesets reach `process_multiple_changes` ONE PER BATCH (`Node.deliver [it]`; the model's
     `step` is built that way);
 R2. `LogOK c.log`: the log is what local transactions produce in a history WITHOUT RE-INSERTION of a
